@@ -16,7 +16,7 @@ var rtcmPkgs = []string{"rtcm/handler", "rtcm/header", "rtcm/utils", "rtcm/pushb
 	"rtcm/type_msm7/message", "rtcm/type_msm7/satellite", "rtcm/type_msm7/signal"}
 
 func checkC15(c *Ctx) {
-	c.Explanation = "Decides the absence of hidden state on the decode/display path: (R1) package-level variables of the rtcm packages are written (assignments, map updates, deletes, element stores) only in init functions, so every frame and every handler sees the same tables; (R2) no code reachable from decoding or display stores through the raw byte buffer of a frame (the []byte input of the decoders, Message.RawData); (R3) display is idempotent: String, PrepareForDisplay, Analyse and their helpers store only into fields of the message they are given, never a value computed from that field's previous content (no append/accumulate), and never into MessageType, RawData or the time lines; (R4) the handler retains no buffer: Handler and the push-back channel have no field that could alias a delivered RawData other than the push-back bytes, and each delivered RawData derives from an allocation made in the same fetch; (R5) consumers get independent copies: the pipeline sends Message values (not pointers) and neither the framer nor the fan-out calls String/Analyse before sending, so the Readable part is nil when the copies are made and RawData is never written afterwards (R2); (R6) decoding and display read no package variable that is written outside init. (R7) whether a time conversion reports an error is decided by the timestamp alone, never by the handler's stored week state, so the error text of a message does not depend on the frames decoded before it."
+	c.Explanation = "Decides the absence of hidden state on the decode/display path: (R1) package-level variables of the rtcm packages are written (assignments, map updates, deletes, element stores) only in init functions, so every frame and every handler sees the same tables; (R2) no code reachable from decoding or display stores through the raw byte buffer of a frame (the []byte input of the decoders, Message.RawData); (R3) display is idempotent: String, PrepareForDisplay, Analyse and their helpers store only into fields of the message they are given, never a value computed from that field's previous content (no append/accumulate), and never into MessageType, RawData or the time lines; (R4) the handler retains no buffer: Handler and the push-back channel have no field that could alias a delivered RawData other than the push-back bytes, and each delivered RawData derives from an allocation made in the same fetch; (R5) consumers get independent copies: the pipeline sends Message values (not pointers) and neither the framer nor the fan-out calls String/Analyse before sending, so the Readable part is nil when the copies are made and RawData is never written afterwards (R2); (R6) decoding and display read no package variable that is written outside init. (R7) whether a time conversion reports an error is decided by the timestamp alone, never by the handler's stored week state, so the error text of a message does not depend on the frames decoded before it. R5 also requires Message.Copy to allocate new bytes and leave the decoded form unset."
 	c.NotDecided = "the MSM time lines (by design they follow the handler's history); purity of fmt/hex/time formatting."
 	P := c.P
 	roots := c07Roots(c, "C15-anchor")
@@ -200,6 +200,38 @@ func checkC15(c *Ctx) {
 	}
 	if nrd == 0 {
 		c.OK("C15-R6", "reads-only-init-time-tables", token.NoPos, "every package variable read on the decode/display path is written only by initialisers")
+	}
+	// ---- R5 (continued) Message.Copy hands out an independent message: a fresh copy of the bytes and no
+	// decoded form (the decoded form is a pointer: sharing it lets one consumer's display or changes
+	// show through in the other's)
+	if cp := P.Func("rtcm/handler", "(*Message).Copy"); cp != nil {
+		okRaw, okReadable := false, true
+		eachInstr(cp, func(ins ssa.Instruction) {
+			st, ok := ins.(*ssa.Store)
+			if !ok {
+				return
+			}
+			fa, ok := st.Addr.(*ssa.FieldAddr)
+			if !ok {
+				return
+			}
+			f, _ := fieldOf(fa)
+			if f == nil {
+				return
+			}
+			switch f.Name() {
+			case "RawData":
+				_, okRaw = root(st.Val).(*ssa.MakeSlice)
+			case "Readable":
+				if !isNilConst(st.Val) {
+					okReadable = false
+				}
+			}
+		})
+		c.Check(okRaw && okReadable, "C15-R5", "copy-independent", cp.Pos(), "Copy allocates new bytes and leaves the decoded form unset",
+			"Message.Copy shares storage with the original (the decoded form or the raw bytes): a copy's text depends on what was done to the original, and consumers can change each other's view")
+	} else {
+		c.Unresolved("C15-R5", "rtcm/handler.(*Message).Copy")
 	}
 	// ---- R7 whether a time conversion fails depends on the timestamp alone, never on the handler's
 	// history: the error text of a message (and with it whether its body is displayed at all) is
